@@ -1,1 +1,19 @@
-From VP Require Import Base.Tactics Value.Model Value.Props.
+From VP Require Import Base.Tactics Value.Model Value.ProofsBase Value.ProofsEq Value.ProofsHash Value.Props.
+Open Scope Z_scope.
+
+Check (C40_refl : forall a, wf a = true -> veq a a = true).
+Print Assumptions C40_refl.
+
+Check (C40_sym : forall a b, wf a = true -> wf b = true -> veq a b = true -> veq b a = true).
+Print Assumptions C40_sym.
+
+Check (C40_trans : forall a b c, wf a = true -> wf b = true -> wf c = true ->
+  veq a b = true -> veq b c = true -> veq a c = true).
+Print Assumptions C40_trans.
+
+Check (C40_hash : forall a b, wf a = true -> wf b = true -> veq a b = true -> hash_stream a = hash_stream b).
+Print Assumptions C40_hash.
+
+Check (C40_unrepaired_hash_refuted : exists a b,
+  wf a = true /\ wf b = true /\ veq a b = true /\ hash_stream_unrepaired a <> hash_stream_unrepaired b).
+Print Assumptions C40_unrepaired_hash_refuted.
